@@ -198,11 +198,25 @@ def check_trajectories(cfg, acc):
             # "new" for the cache although numerically equal; not judged
             acc.count("not_applicable_zero_length_flow")
             return
-        st = ChainState(pos=cw.VALS[d]["pos"][0].copy(), mom=cw.VALS[d]["mom"][0].copy(), dir=1)
+        q0, p0 = cw.VALS[d]["pos"][0].copy(), cw.VALS[d]["mom"][0].copy()
+        if spec_cfg["family"] in ("constrained", "gaussian_constrained"):
+            from mc import zoo
+            con = zoo.Constraint(spec_cfg["constraint"], d, 0)
+            Md = {nm: dn for nm, _, dn in zoo.constant_metrics(d, 0)}[spec_cfg["metric"]]
+            Mi = np.linalg.inv(Md)
+            q0 = con.project(q0, Mi)
+            p0 = con.project_mom(q0, p0, Mi)
+        st = ChainState(pos=q0, mom=p0, dir=1)
         x = st
         acc.count("evaluations")
-        for _ in range(n):
-            x = integ.step(x)
+        try:
+            for _ in range(n):
+                x = integ.step(x)
+        except Exception as e:  # noqa: BLE001
+            if type(e).__name__ in ("ConvergenceError", "NonReversibleStepError"):
+                acc.count("trajectory_step_refused")
+                continue
+            raise
         pos = grad_positions(cnt)
         F = {"class": type(system).__name__, "method": rec[0], "clause": "trajectory"}
         if len(pos) != len(set(pos)):
@@ -211,9 +225,17 @@ def check_trajectories(cfg, acc):
                           observed={"calls": len(pos), "distinct_positions": len(set(pos))},
                           expected="at most one evaluation per position", n=n)
             return
-        if rec[0] == "leapfrog" and len(pos) != n + 1:
+        if rec[0] in ("leapfrog", "constrained_leapfrog") and len(pos) != n + 1:
+            # constrained leapfrog: documented - dh1_dpos is not evaluated during the inner
+            # h2_flow steps, whatever n_inner_step is
             acc.violation(driver="trajectory", config=cfg, fields=F,
                           kind="gradient_count", observed=len(pos), expected=n + 1, n=n)
+            return
+        if rec[0] == "constrained_leapfrog" and "mhp_constr" in cnt.n and \
+                cnt.n["mhp_constr"] != n + 1:
+            acc.violation(driver="trajectory", config=cfg, fields={**F, "callback": "mhp_constr"},
+                          kind="gradient_count", observed=cnt.n["mhp_constr"], expected=n + 1,
+                          n=n)
             return
         acc.outcome(("traj", cfg["spec"], conv, str(rec), n, len(pos)))
 
@@ -313,6 +335,11 @@ def configs(tier, seed):
         for spec, conv in (("euclidean", "with_value"), ("constrained_gram", "mixed_top")):
             cfgs.append({"mode": "bfs", "spec": spec, "conv": conv, "d": 2, "depth": 4,
                          "seed": seed})
+    for spec in ("constrained_hausdorff", "constrained_gram", "gaussian_constrained"):
+        for conv in cw.CONVS:
+            for rec in izoo.constrained_recipes(True, (1, 2, 3)):
+                cfgs.append({"mode": "trajectory", "spec": spec, "conv": conv,
+                             "integrator": rec})
     for spec in ("euclidean", "euclidean_identity", "gaussian"):
         for conv in cw.CONVS:
             for rec in izoo.tractable_recipes("quick"):
